@@ -24,6 +24,11 @@ type Violation struct {
 	Sig    string          `json:"sig"`
 	Detail string          `json:"detail"`
 	Case   json.RawMessage `json:"case"`
+	// where in the enumeration it was found: lets the driver re-run the same shard up to this case when the case
+	// alone does not reproduce (behaviour that depends on what the process did before)
+	Shard   int   `json:"shard"`
+	NShards int   `json:"nshards"`
+	Idx     int64 `json:"idx"`
 }
 
 // Ctx accumulates what a worker covered.
@@ -42,6 +47,8 @@ type Ctx struct {
 	curCase    json.RawMessage
 	capHit     bool
 	deadline   time.Time
+	shard, n   int
+	curIdx     int64
 }
 
 func newCtx(tier string) *Ctx {
@@ -111,7 +118,7 @@ func (c *Ctx) Violate(sig, detail string, cs any) {
 	if len(detail) > 4000 {
 		detail = detail[:4000] + "…"
 	}
-	c.violations = append(c.violations, Violation{Sig: sig, Detail: detail, Case: raw})
+	c.violations = append(c.violations, Violation{Sig: sig, Detail: detail, Case: raw, Shard: c.shard, NShards: c.n, Idx: c.curIdx})
 }
 
 // ---- registry ------------------------------------------------------------
@@ -291,6 +298,11 @@ func Main(args []string) int {
 		fmt.Sscan(args[5], &from)
 		out := args[6]
 		c := newCtx(args[2])
+		c.shard, c.n = shard, n
+		upto := int64(-1)
+		if s := os.Getenv("VERIF_UPTO"); s != "" {
+			fmt.Sscan(s, &upto)
+		}
 		if s := os.Getenv("VERIF_SEED"); s != "" {
 			fmt.Sscan(s, &c.Seed)
 		}
@@ -330,7 +342,7 @@ func Main(args []string) int {
 		lastFlush := time.Now()
 		def.gen(c.Tier, func(cs any) {
 			idx++
-			if !ok || idx < from || int((idx+rot)%int64(n)) != shard {
+			if !ok || idx < from || int((idx+rot)%int64(n)) != shard || (upto >= 0 && idx > upto) {
 				return
 			}
 			if c.Expired() {
@@ -342,7 +354,13 @@ func Main(args []string) int {
 			raw, _ := json.Marshal(cs)
 			c.mu.Lock()
 			c.curCase = raw
+			c.curIdx = idx
 			c.mu.Unlock()
+			// progress record: if the process dies inside the library (a panic on a goroutine the library spawned, a
+			// fatal error) the driver learns which case it was
+			if pb, err := json.Marshal(map[string]any{"idx": idx, "case": json.RawMessage(raw)}); err == nil {
+				os.WriteFile(out+".progress", pb, 0o644)
+			}
 			wmu.Lock()
 			cur, curStart = idx, time.Now().Unix()
 			wmu.Unlock()
